@@ -69,6 +69,10 @@ def run_contract(task, budget_s=120):
         else:
             fn, path = find_function(c.get('target', name))
             out['file'] = path
+            from . import alias
+            probs = alias.check(fn)
+            if probs:
+                raise core.Unsupported('possible aliasing, value semantics of lists would be unsound: ' + '; '.join(probs[:3]))
             gen = core.Gen(fn, c, reg, name.split('.')[0])
             obls = gen.run()
             out['dropped'] = gen.dropped + ['docstrings', 'exception message strings']
